@@ -1,20 +1,33 @@
-(** C10 — Classic-notation Display is unambiguous: parsing it back yields the same term.
+(** C10 — Classic-notation Display is unambiguous: parsing it back yields the same term *)
+From LC Require Import Spec.Printing Model.Parser Model.Display Proofs.Printing Proofs.RoundTripCla Proofs.Base26.
 
-    PARTIAL at the level of theorems: the format clause is proved for all terms, all depths and
-    both glyphs; the round trip parse(Display t) = canon t is decided by the check (implementation
-    and model parser run on the printed strings of an exhaustive universe, random terms and
-    hand-built terms with binder depth beyond 26 and 702). *)
-From LC Require Import Model.Display Spec.Printing Proofs.Printing.
+(** for every term without UD (any size, any binder depth — names of 1, 2, 3, … letters), under
+    both glyphs: the model of the parser applied to the model's Display output returns the term
+    with its free variables renumbered in order of first appearance ... *)
+Theorem C10_roundtrip : forall lam t, (lam = 955%N \/ lam = 92%N) -> has_ud t = false ->
+  parse (map classify (display lam t)) Classic = inr (canon t).
+Proof. exact display_roundtrip. Qed.
 
+(** ... which is the term itself when it is closed *)
+Theorem C10_closed : forall t, closed t = true -> canon t = t.
+Proof. exact canon_closed. Qed.
+
+(** the documented format: binders named by nesting depth, free variables after all binder names,
+    single spaces, minimal parentheses, the configured glyph *)
 Theorem C10_format : forall lam t, display lam t = ref_print_cla lam t.
 Proof. exact display_format. Qed.
 
-(** binder and variable names are the bijective base-26 numerals, for every depth *)
+(** names are the bijective base-26 numerals: non-empty lower-case words, distinct for distinct numbers *)
 Theorem C10_names : forall n, base26_encode n = b26 n.
 Proof. exact base26_encode_b26. Qed.
+Theorem C10_names_injective : forall a b, b26 a = b26 b -> a = b.
+Proof. exact b26_inj. Qed.
 
 Example C10_example_names : b26 0 = [97%N] /\ b26 25 = [122%N] /\ b26 26 = [97; 97]%N /\ b26 701 = [122; 122]%N /\ b26 702 = [97; 97; 97]%N.
 Proof. repeat split; vm_compute; reflexivity. Qed.
 
+Print Assumptions C10_roundtrip.
+Print Assumptions C10_closed.
 Print Assumptions C10_format.
 Print Assumptions C10_names.
+Print Assumptions C10_names_injective.
